@@ -475,6 +475,7 @@ func sortedInts(xs []int) []int { ys := append([]int(nil), xs...); sort.Ints(ys)
 
 var withHealth = true
 var atreeValidation = true
+var healthFirst = false
 
 func replay(b *Beh, useVM bool) *Fail {
 	eng := "interp"
@@ -582,6 +583,32 @@ func replay(b *Beh, useVM bool) *Fail {
 			continue
 		}
 		// ---- committed transaction
+		var ledger *health.Report
+		checkLedger := func() *Fail {
+			if !withHealth {
+				return nil
+			}
+			rep, herr := health.Inspect(w)
+			if herr != nil {
+				k := "health"
+				if he, ok := herr.(*health.Error); ok {
+					k = "health:" + he.Kind
+				}
+				return fail(k, "committed storage is not healthy: "+herr.Error())
+			}
+			for a := 1; a <= b.Cfg.Accts; a++ {
+				if n := rep.RootCount(acctAddr[a-1], "storage"); n != s.Roots[a-1] {
+					return fail("root-count", fmt.Sprintf("account A%d: model has %d stored root values, ledger has %d", a, s.Roots[a-1], n))
+				}
+			}
+			ledger = rep
+			return nil
+		}
+		if healthFirst {
+			if f := checkLedger(); f != nil {
+				return f
+			}
+		}
 		// creations: one uuid per create, in program order
 		var createdIDs []int
 		for _, c := range cur {
@@ -658,23 +685,14 @@ func replay(b *Beh, useVM bool) *Fail {
 		if len(uuidOf) != len(s.Pop) {
 			return fail("population", fmt.Sprintf("model has %d live resources, harness tracks %d", len(s.Pop), len(uuidOf)))
 		}
-		// the committed ledger, decoded from scratch
-		if withHealth {
-			rep, herr := health.Inspect(w)
-			if herr != nil {
-				k := "health"
-				if he, ok := herr.(*health.Error); ok {
-					k = "health:" + he.Kind
-				}
-				return fail(k, "committed storage is not healthy: "+herr.Error())
+		if !healthFirst {
+			if f := checkLedger(); f != nil {
+				return f
 			}
-			for a := 1; a <= b.Cfg.Accts; a++ {
-				if n := rep.RootCount(acctAddr[a-1], "storage"); n != s.Roots[a-1] {
-					return fail("root-count", fmt.Sprintf("account A%d: model has %d stored root values, ledger has %d", a, s.Roots[a-1], n))
-				}
-			}
+		}
+		if ledger != nil {
 			var gotU, wantU []int
-			for _, res := range rep.Resources {
+			for _, res := range ledger.Resources {
 				gotU = append(gotU, int(res.UUID))
 			}
 			for _, u := range uuidOf {
@@ -729,6 +747,10 @@ func replayMain(args []string) {
 	for _, a := range args[2:] {
 		if strings.HasPrefix(a, "health=") {
 			withHealth = a == "health=1"
+			continue
+		}
+		if strings.HasPrefix(a, "healthfirst=") {
+			healthFirst = a == "healthfirst=1"
 			continue
 		}
 		if strings.HasPrefix(a, "atree=") {
